@@ -241,8 +241,10 @@ impl<T: Types> FlushWorker<T> {
         }
 
         while files.len() > 1 {
-            let f = files.remove(0);
-            f.f.sync_data()?;
+            // Forget a file only after it is synced: if the sync fails, the
+            // file must be retried by the next flush.
+            files[0].f.sync_data()?;
+            files.remove(0);
         }
 
         // The second last and before are all closed,
